@@ -198,6 +198,77 @@ pub fn __vx_extend<T, I: IntoIterator<Item = T>>(v: &mut Vec<T>, i: I)
     ensures final(v)@ == old(v)@ + yielded::<T, I>(i)
 { v.extend(i) }
 
+// ---------- generic adapter helpers: std semantics trusted, the closure stays kiki's (live, verified) text ----------
+/// the Some-results of g over s, in order
+pub open spec fn filter_map_spec<T, U>(s: Seq<T>, g: spec_fn(T) -> Option<U>) -> Seq<U>
+    decreases s.len()
+{
+    if s.len() == 0 { Seq::empty() }
+    else { let r = filter_map_spec(s.drop_last(), g); match g(s.last()) { Some(u) => r.push(u), None => r } }
+}
+pub proof fn lemma_filter_map_contains<T, U>(s: Seq<T>, g: spec_fn(T) -> Option<U>, u: U)
+    ensures filter_map_spec(s, g).contains(u) <==> exists|i: int| 0 <= i < s.len() && g(#[trigger] s[i]) == Some(u)
+    decreases s.len()
+{
+    if s.len() > 0 {
+        let pre = s.drop_last();
+        let n1 = s.len() - 1;
+        lemma_filter_map_contains(pre, g, u);
+        let r = filter_map_spec(pre, g);
+        assert(s.last() == s[n1]);
+        if filter_map_spec(s, g).contains(u) {
+            if r.contains(u) {
+                let i = choose|i: int| 0 <= i < pre.len() && g(#[trigger] pre[i]) == Some(u);
+                assert(s[i] == pre[i]);
+            } else {
+                let k = choose|k: int| 0 <= k < filter_map_spec(s, g).len() && filter_map_spec(s, g)[k] == u;
+                assert(g(s[n1]) == Some(u)) by { if g(s.last()) is Some { if k < r.len() { assert(r[k] == u); } } }
+            }
+        }
+        if exists|i: int| 0 <= i < s.len() && g(#[trigger] s[i]) == Some(u) {
+            let i = choose|i: int| 0 <= i < s.len() && g(#[trigger] s[i]) == Some(u);
+            if i < n1 { assert(pre[i] == s[i]); assert(r.contains(u)); let k = choose|k: int| 0 <= k < r.len() && r[k] == u; assert(filter_map_spec(s, g)[k] == u); }
+            else { assert(filter_map_spec(s, g)[r.len() as int] == u); }
+        }
+    }
+}
+/// the first Some-result of g over s from index i on
+pub open spec fn find_map_spec<T, U>(s: Seq<T>, g: spec_fn(T) -> Option<U>, i: int) -> Option<U>
+    decreases s.len() - i
+{
+    if i < 0 || i >= s.len() { None } else if g(s[i]) is Some { g(s[i]) } else { find_map_spec(s, g, i + 1) }
+}
+/// T18 (trusted std semantics): `s.iter().find_map(f)`, for every spec function g that describes f's results
+#[verifier::external_body]
+pub fn __vx_find_map<'a, T, U, F: Fn(&'a T) -> Option<U>>(s: &'a [T], f: F) -> (r: Option<U>)
+    requires forall|i: int| 0 <= i < s@.len() ==> call_requires(f, (&#[trigger] s@[i],)),
+    ensures forall|g: spec_fn(T) -> Option<U>|
+        (forall|i: int, o: Option<U>| 0 <= i < s@.len() && #[trigger] call_ensures(f, (&s@[i],), o) ==> o == g(s@[i]))
+        ==> r == #[trigger] find_map_spec(s@, g, 0)
+{ s.iter().find_map(f) }
+/// the first index >= i at which p holds
+pub open spec fn position_spec<T>(s: Seq<T>, p: spec_fn(T) -> bool, i: int) -> Option<int>
+    decreases s.len() - i
+{
+    if i < 0 || i >= s.len() { None } else if p(s[i]) { Some(i) } else { position_spec(s, p, i + 1) }
+}
+/// T18 (trusted std semantics): `s.iter().position(f)`, for every spec predicate p that describes f's results
+#[verifier::external_body]
+pub fn __vx_position<'a, T, F: Fn(&'a T) -> bool>(s: &'a [T], f: F) -> (r: Option<usize>)
+    requires forall|i: int| 0 <= i < s@.len() ==> call_requires(f, (&#[trigger] s@[i],)),
+    ensures forall|p: spec_fn(T) -> bool|
+        (forall|i: int, o: bool| 0 <= i < s@.len() && #[trigger] call_ensures(f, (&s@[i],), o) ==> o == p(s@[i]))
+        ==> (match r { Some(k) => Some(k as int), None => None }) == #[trigger] position_spec(s@, p, 0)
+{ s.iter().position(f) }
+/// T18 (trusted std semantics): `s.iter().filter_map(f).collect::<Vec<_>>()`, for every spec function g that describes f's results
+#[verifier::external_body]
+pub fn __vx_filter_map_collect<'a, T, U, F: Fn(&'a T) -> Option<U>>(s: &'a [T], f: F) -> (r: Vec<U>)
+    requires forall|i: int| 0 <= i < s@.len() ==> call_requires(f, (&#[trigger] s@[i],)),
+    ensures forall|g: spec_fn(T) -> Option<U>|
+        (forall|i: int, o: Option<U>| 0 <= i < s@.len() && #[trigger] call_ensures(f, (&s@[i],), o) ==> o == g(s@[i]))
+        ==> r@ == #[trigger] filter_map_spec(s@, g)
+{ s.iter().filter_map(f).collect() }
+
 /// assumed std contract: Option::filter keeps the value iff the predicate holds for it
 pub assume_specification<T, P: FnOnce(&T) -> bool>[ Option::<T>::filter::<P> ](o: Option<T>, p: P) -> (r: Option<T>)
     requires o matches Some(x) ==> call_requires(p, (&x,)),
